@@ -5,14 +5,14 @@
 use std::cell::RefCell;
 
 thread_local! {
-    static OUTBOX: RefCell<Vec<(&'static str, Vec<u8>)>> = const { RefCell::new(Vec::new()) };
+    static OUTBOX: RefCell<Vec<(Option<libp2p::PeerId>, &'static str, Vec<u8>)>> = const { RefCell::new(Vec::new()) };
 }
 
-pub(crate) fn published(topic: &'static str, data: &[u8]) {
-    OUTBOX.with(|outbox| outbox.borrow_mut().push((topic, data.to_vec())));
+pub(crate) fn published(from: Option<libp2p::PeerId>, topic: &'static str, data: &[u8]) {
+    OUTBOX.with(|outbox| outbox.borrow_mut().push((from, topic, data.to_vec())));
 }
 
-/// Takes the messages published on this thread since the last call.
-pub fn take_outbox() -> Vec<(&'static str, Vec<u8>)> {
+/// Takes the messages (publishing node, topic, bytes) published on this thread since the last call.
+pub fn take_outbox() -> Vec<(Option<libp2p::PeerId>, &'static str, Vec<u8>)> {
     OUTBOX.with(|outbox| std::mem::take(&mut *outbox.borrow_mut()))
 }
